@@ -17,6 +17,17 @@ pub struct Val {
     pub day: i64,
     pub tod: u64,
     pub off: i32,
+    /// field values that have no getter-independent definition in this property (C02 owns their
+    /// correctness): when set they replace the calendar model's value
+    pub week: Option<u32>,
+    pub doy: Option<u32>,
+    pub wday_sun0: Option<u32>,
+}
+
+impl Val {
+    pub fn new(kind: Kind, day: i64, tod: u64, off: i32) -> Val {
+        Val { kind, day, tod, off, week: None, doy: None, wday_sun0: None }
+    }
 }
 
 #[derive(Clone, Debug, PartialEq, Eq)]
@@ -210,12 +221,12 @@ pub fn render_run(v: &Val, c: char, w: usize) -> Result<String, ()> {
             4 => MONTH_WIDE[m as usize - 1].to_string(),
             _ => MONTH_NARROW[m as usize - 1].to_string(),
         },
-        'w' => pad(cal::iso_week(v.day).1 as u64, eff(w, 2, 2)),
+        'w' => pad(v.week.unwrap_or(cal::iso_week(v.day).1) as u64, eff(w, 2, 2)),
         'd' => pad(d as u64, eff(w, 2, 2)),
-        'D' => pad(cal::day_of_year(v.day) as u64, eff(w, 3, 1)),
+        'D' => pad(v.doy.unwrap_or(cal::day_of_year(v.day)) as u64, eff(w, 3, 1)),
         'e' => {
-            let s0 = cal::weekday_sun0(v.day) as usize;
-            let m0 = cal::weekday_mon0(v.day) as u64;
+            let s0 = v.wday_sun0.unwrap_or(cal::weekday_sun0(v.day)) as usize % 7;
+            let m0 = ((s0 + 6) % 7) as u64;
             match eff(w, 8, 1) {
                 1 => (s0 + 1).to_string(),
                 2 => pad(s0 as u64 + 1, 2),
@@ -331,7 +342,7 @@ pub fn value_class(v: &Val, c: char) -> &'static str {
 pub fn self_check() -> Result<(), String> {
     // examples copied from the documentation tables / doc tests
     let d = cal::days_from_civil(2022, 5, 2);
-    let v = Val { kind: Kind::DateTime, day: d, tod: (12 * 3600 + 32 * 60 + 1) * 1_000_000_000, off: 0 };
+    let v = Val::new(Kind::DateTime, d, (12 * 3600 + 32 * 60 + 1) * 1_000_000_000, 0);
     let cases = [
         ("yyyy/MM/dd HH:mm:ss", "2022/05/02 12:32:01"),
         ("yyyy/'MM/dd' HH:mm:ss", "2022/MM/dd 12:32:01"),
@@ -348,7 +359,7 @@ pub fn self_check() -> Result<(), String> {
             return Err(format!("fmt_spec self-check: {:?} -> {:?}, documentation says {:?}", p, got, want));
         }
     }
-    let t = Val { kind: Kind::Time, day: 0, tod: 0, off: -(7 * 3600 + 52 * 60 + 58) };
+    let t = Val::new(Kind::Time, 0, 0, -(7 * 3600 + 52 * 60 + 58));
     if render(&t, "XXXXX xxxx X").as_deref() != Some("-07:52:58 -075258 -0752") {
         return Err("fmt_spec self-check: zone".into());
     }
